@@ -92,6 +92,13 @@ def subscript_dim(dim, idx):
         return dim
     cols, lead = dim[1], dim[2]
     items = idx.items if idx.kind == "indextuple" else (idx,)
+    # np.newaxis / None inserts an axis in front of the remaining ones
+    nnew = sum(1 for it in items if it.kind == "none")
+    if nnew:
+        items = tuple(it for it in items if it.kind != "none")
+        if not items or all(it.kind == "slice" and it.extra.lower is None and it.extra.upper is None for it in items[:lead]):
+            if len(items) <= lead:
+                return ("COLS", cols, lead + nnew)
     # consume leading axes
     k = 0
     for it in items:
@@ -626,7 +633,19 @@ def call_ext(interp, ext, node, args, kwargs, st):
                 d, c = dim_unify(d, ed)
                 conflict = conflict or c
             if conflict:
+                # heterogeneous stacking (e.g. an in-plane constraint row appended to a coordinate block):
+                # keep the dimension of the first block, never a report
                 d = TOP
+                for e in elems:
+                    ed = dim_collapse(e.dim)
+                    if e.kind in ("list", "tuple") and e.items is not None:
+                        ed = ANY
+                        for it in e.items:
+                            ed, _ = dim_unify(ed, it.dim)
+                    if dim_known(ed):
+                        d = ed
+                        break
+                return fresh(d, tags=frozenset(["concat", "hetero"]))
             return fresh(d, tags=frozenset(["concat"]))
         if name in ("take_along_axis", "take", "compress", "delete", "choose", "select", "insert"):
             tags = frozenset()
